@@ -19,7 +19,9 @@ Record vzc_case := {
   vzc_oks : list bool;            (* AddVRFShare results *)
   vzc_admitted : list Z;          (* party ids of Round.GetVRFShares at the end *)
   vzc_hints : list Z;             (* Lagrange coefficient candidates for the admitted ids, admission order *)
-  vzc_seed : option Z             (* dlog of the signature whose hash is the round's VRF output; None = no seed *)
+  vzc_seed : option Z;            (* dlog of the signature whose hash is the round's VRF output; None = no seed *)
+  vzc_mpks : list ((bool * bool) * (nat * bool))
+     (* contributeMpk calls: ((sender in the DKG set, already contributed), (coefficients sent, accepted)) *)
 }.
 
 Definition vzc_check (c : vzc_case) : bool :=
@@ -35,4 +37,6 @@ Definition vzc_check (c : vzc_case) : bool :=
                                         (vzc_hints c) (Some w)
            | None => false
            end
-      else match vzc_seed c with None => true | Some _ => false end).
+      else match vzc_seed c with None => true | Some _ => false end)
+  && forallb (fun v => let '((mem, had), (len, ok)) := v in
+                       Bool.eqb (va_mpk_accept (vzc_t c) mem had len) ok) (vzc_mpks c).
